@@ -187,6 +187,22 @@ def allof_objects(s):
 
 
 findings.MATCHERS["schema-allOf-objects"] = lambda c: allof_objects(c["schema"]) and _msg(c, "is a required property", "enough properties", "is not valid under any")
+def empty_range(s):
+    """some subschema's numeric bounds leave no number at all"""
+    if isinstance(s, dict):
+        los = [(s[k], k == "exclusiveMinimum") for k in ("minimum", "exclusiveMinimum") if isinstance(s.get(k), (int, float)) and not isinstance(s.get(k), bool)]
+        his = [(s[k], k == "exclusiveMaximum") for k in ("maximum", "exclusiveMaximum") if isinstance(s.get(k), (int, float)) and not isinstance(s.get(k), bool)]
+        for lo, lx in los:
+            for hi, hx in his:
+                if lo > hi or (lo == hi and (lx or hx)):
+                    return True
+        return any(empty_range(v) for v in s.values())
+    if isinstance(s, list):
+        return any(empty_range(v) for v in s)
+    return False
+
+
+findings.MATCHERS["schema-empty-range"] = lambda c: bool(c.get("build")) and empty_range(c["schema"]) and _msg(c, "must >")
 findings.MATCHERS["schema-minProperties"] = lambda c: has_kw(c["schema"], "minProperties") and _msg(c, "enough properties", "non-empty", "is not valid under any")
 
 
@@ -303,7 +319,11 @@ def main(tier, seed):
     n_out = 0
     for o, r in zip(outs, results):
         if "build_error" in o:
-            bad.append("building a type failed (%s) for %s" % (o["build_error"], json.dumps(o["schema"])[:400]))
+            fid = findings.matches_any(PID, dict(schema=o["schema"], errs=[o["build_error"]], value=None, build=True))
+            if fid:
+                known[fid] = known.get(fid, 0) + 1
+            else:
+                bad.append("building a type failed (%s) for %s" % (o["build_error"], json.dumps(o["schema"])[:400]))
             continue
         for c in o.get("crashes", []):
             bad.append("the built type crashed: %s; schema %s" % (c, json.dumps(o["schema"])[:400]))
